@@ -45,6 +45,10 @@ CHECKS = {
  'C20': dict(level='exploration', ref='3/C20', technique='statement / call-site / function-entry probes emitted by the guarded hook (frame invariant rsp + 8*depth == alloca_bottom, x87 depth vs function entry, x87 CW and MXCSR, 16-byte alignment) executed under repetition counts 1/9/1000/100000, plus value-independence-of-N and gcc as reference; the probed stage-2 compiler as realistic workload',
              text='Every expression/statement form x result type (scalars, long double, five aggregate shapes, void) is placed in discarding and value-using positions inside loops; the probes assert at every statement boundary that neither the machine stack nor the x87 register stack kept a residue, and the values computed afterwards must not depend on the iteration count. The whole self-compiled compiler built with probes then compiles its own sources and the test corpus (~1.5e8 probe executions per quick run).',
              note='only statement boundaries are observed; x87 depth is compared with the depth at function entry (caller-held long double across calls is a separate open C06 finding)'),
+
+ 'C03': dict(level='exploration', ref='3/C03', technique='execution-trace monitor: MARK(id) event sequences (fuel-bounded) and printed binding identities of chibicc-compiled programs vs gcc == clang',
+             text='Random structured functions over all statement forms (switch on every integer type with negative, >32-bit and range labels, default in every position, fall-through, labels inside nested statements, break/continue in mixed loop/switch nestings, forward/backward/computed goto, short-circuit, ?:, comma, statement expressions) are instrumented with markers in sequenced positions; the recorded trace must equal the references. Scoping programs give every declaration a unique value or size across file/parameter/block/for-init scopes and the five name spaces; each use prints what it bound to.',
+             note='gcc == clang trusted; only terminating, defined programs (per-loop counters + global fuel); depth <= 5'),
 }
 REASON_WIP = 'check not built yet in this session (planned, see DESIGN.md section 3); will be claimed once its monitor is silent on the unchanged tree'
 
